@@ -437,17 +437,169 @@ theorem aug_cache_eq_lookup (f : List Rat → Rat) {cv : List Int} {K : Nat} (h 
       rw [augSlices_length, sliceCache_length h.1]; omega
     simp [List.getElem?_map, List.getElem?_eq_none h1, List.getElem?_eq_none (show (List.range K).length ≤ k by simp; omega)]
 
+/-! ### the code-shaped lookup routes: integer-array indexing raises on a short value vector -/
+
+/-- the vector `cycleStat` returns when it returns: the slice-cache statistic with the cache on, the
+    label-lookup statistic with the cache off -/
+def cycleStatV (cache : Bool) (mode : Mode) (f : List Rat → Rat) (thr : Rat) (ph : List Rat)
+    (cv : List Int) (vals : List Rat) : List Val :=
+  match cache, mode with
+  | false, .cycle => lookupStat f cv vals
+  | true, .cycle => sliceStat f vals ((sliceCache cv).map some)
+  | false, .augmented => lookupAugStat f thr ph cv vals
+  | true, .augmented => sliceStat f vals (augSlices thr ph none (sliceCache cv))
+
+theorem collect_map_ok {α : Type} (l : List α) (g : α → Val) :
+    collect (l.map fun a => (.ok (g a) : Except Err Val)) = .ok (l.map g) := by
+  induction l with
+  | nil => rfl
+  | cons a t ih => simp [collect, ih]
+
+theorem collect_congr_ok {α : Type} (l : List α) (g : α → Except Err Val) (g' : α → Val)
+    (h : ∀ a ∈ l, g a = .ok (g' a)) : collect (l.map g) = .ok (l.map g') := by
+  rw [← collect_map_ok]
+  congr 1
+  exact List.map_congr_left h
+
+/-- the loop raises IndexError as soon as one iteration does (no other error kind occurs) -/
+theorem collect_index (l : List (Except Err Val)) (hmem : .error .index ∈ l)
+    (hall : ∀ x ∈ l, ∀ e, x = .error e → e = .index) : collect l = .error .index := by
+  induction l with
+  | nil => simp at hmem
+  | cons x t ih =>
+    cases x with
+    | error e =>
+      have := hall (.error e) (by simp) e rfl
+      subst this; rfl
+    | ok v =>
+      have ht : Except.error Err.index ∈ t := by simpa using hmem
+      have := ih ht (fun x hx => hall x (by simp [hx]))
+      simp [collect, this]
+
+theorem fancy_ok (vals : List Rat) (inds : List Nat) (h : ∀ i ∈ inds, i < vals.length) :
+    fancy vals inds = .ok (inds.map fun i => vals[i]?.getD 0) := by
+  unfold fancy
+  rw [if_pos]
+  simpa using h
+
+theorem fancy_error (vals : List Rat) (inds : List Nat) (i : Nat) (hi : i ∈ inds) (h : vals.length ≤ i) :
+    fancy vals inds = .error .index := by
+  unfold fancy
+  rw [if_neg]
+  simp only [List.all_eq_true, decide_eq_true_eq]
+  intro hall
+  have := hall i hi
+  omega
+
+theorem fancy_error_kind (vals : List Rat) (inds : List Nat) (e : Err) (g : List Rat → Val)
+    (h : (fancy vals inds).map g = .error e) : e = .index := by
+  unfold fancy at h
+  split at h
+  · cases h
+  · simp [Except.map] at h; exact h.symm
+
+theorem indicesFrom_lt {α : Type} (p : α → Bool) (i : Nat) (l : List α) : ∀ j ∈ indicesFrom p i l, j < i + l.length := by
+  induction l generalizing i with
+  | nil => simp [indicesFrom]
+  | cons a t ih =>
+    intro j hj
+    simp only [indicesFrom] at hj
+    have hrec : ∀ j ∈ indicesFrom p (i + 1) t, j < i + (a :: t).length := by
+      intro j hj; have := ih (i + 1) j hj; simp only [List.length_cons]; omega
+    split at hj
+    · rcases List.mem_cons.mp hj with rfl | hj
+      · simp
+      · exact hrec j hj
+    · exact hrec j hj
+
+theorem indicesOf_lt (cv : List Int) (k : Int) : ∀ i ∈ indicesOf cv k, i < cv.length := by
+  intro i hi
+  have := indicesFrom_lt _ 0 cv i hi
+  omega
+
+/-- With one value per sample the label lookup never raises, and returns `lookupStat`. -/
+theorem lookupStatE_ok (f : List Rat → Rat) (cv : List Int) (vals : List Rat) (hv : vals.length = cv.length) :
+    lookupStatE f cv vals = .ok (lookupStat f cv vals) := by
+  unfold lookupStatE lookupStat
+  apply collect_congr_ok
+  intro k _
+  rw [fancy_ok _ _ (by intro i hi; have := indicesOf_lt cv _ i hi; omega), samplesOf_eq_map _ _ _ hv]
+  rfl
+
+theorem fancy_range' (vals : List Rat) (a b : Nat) (hb : b ≤ vals.length) :
+    fancy vals (List.range' a (b - a)) = .ok (sliceVals vals (a, b)) := by
+  rw [fancy_ok _ _ (by intro i hi; simp [List.mem_range'_1] at hi; omega)]
+  by_cases hab : a ≤ b
+  · rw [sliceVals_eq_map _ _ _ hab hb]
+  · have : b - a = 0 := by omega
+    simp [this, sliceVals]
+
+theorem augInds_stop_le (thr : Rat) (ph : List Rat) (cv : List Int) (k : Nat) (s : Nat × Nat)
+    (h : augInds thr ph cv k = some s) : s.2 ≤ cv.length := by
+  unfold augInds at h
+  split at h
+  · cases h
+  · split at h
+    · cases h
+    · rename_i e he
+      simp only [Option.some.injEq] at h
+      subst h
+      have := indicesOf_lt cv _ e (List.mem_of_getLast? he)
+      simp only []
+      omega
+
+/-- With one value per sample the augmented lookup never raises, and returns `lookupAugStat`. -/
+theorem lookupAugStatE_ok (f : List Rat → Rat) (thr : Rat) (ph : List Rat) (cv : List Int) (vals : List Rat)
+    (hv : vals.length = cv.length) :
+    lookupAugStatE f thr ph cv vals = .ok (lookupAugStat f thr ph cv vals) := by
+  unfold lookupAugStatE lookupAugStat
+  apply collect_congr_ok
+  intro k _
+  cases h : augInds thr ph cv k with
+  | none => rfl
+  | some s =>
+    have := augInds_stop_le thr ph cv k s h
+    simp only []
+    rw [fancy_range' _ _ _ (by omega)]
+    rfl
+
+/-- With one value per sample no branch of `compute_cycle_metric` raises. -/
+theorem cycleStat_eq_ok (cache : Bool) (mode : Mode) (f : List Rat → Rat) (thr : Rat) (ph : List Rat)
+    (cv : List Int) (vals : List Rat) (hv : vals.length = cv.length) :
+    cycleStat cache mode f thr ph cv vals = .ok (cycleStatV cache mode f thr ph cv vals) := by
+  cases cache <;> cases mode <;> simp only [cycleStat, cycleStatV]
+  · exact lookupStatE_ok f cv vals hv
+  · exact lookupAugStatE_ok f thr ph cv vals hv
+
+/-- The slice-cache branches never raise, whatever the length of the value vector. -/
+theorem cycleStat_cache_ok (mode : Mode) (f : List Rat → Rat) (thr : Rat) (ph : List Rat)
+    (cv : List Int) (vals : List Rat) :
+    cycleStat true mode f thr ph cv vals = .ok (cycleStatV true mode f thr ph cv vals) := by
+  cases mode <;> rfl
+
+/-- The lookup branch raises IndexError when some labelled sample has no value. -/
+theorem lookupStatE_short (f : List Rat → Rat) (cv : List Int) (vals : List Rat) (i : Nat) (k : Nat)
+    (hk : k < nLabels cv) (hi : i ∈ indicesOf cv (k : Int)) (hs : vals.length ≤ i) :
+    lookupStatE f cv vals = .error .index := by
+  unfold lookupStatE
+  apply collect_index
+  · refine List.mem_map.mpr ⟨k, by simpa using hk, ?_⟩
+    rw [fancy_error vals _ i hi hs]; rfl
+  · intro x hx e he
+    obtain ⟨k', _, rfl⟩ := List.mem_map.mp hx
+    exact fancy_error_kind _ _ e _ he
+
 /-- Every branch of `compute_cycle_metric` gives the same vector with and without the cache. -/
 theorem cycleStat_cache_irrelevant (mode : Mode) (f : List Rat → Rat) (thr : Rat) (ph : List Rat) {cv : List Int} {K : Nat}
     (h : CvOK cv K) (vals : List Rat) (hv : vals.length = cv.length) :
-    cycleStat true mode f thr ph cv vals = cycleStat false mode f thr ph cv vals := by
+    cycleStatV true mode f thr ph cv vals = cycleStatV false mode f thr ph cv vals := by
   cases mode with
   | cycle => exact cycle_cache_eq_lookup f h.1 vals hv
   | augmented => exact aug_cache_eq_lookup f h thr ph vals
 
 theorem cycleStat_length (cache : Bool) (mode : Mode) (f : List Rat → Rat) (thr : Rat) (ph : List Rat) {cv : List Int} {K : Nat}
-    (h : WF cv K) (vals : List Rat) : (cycleStat cache mode f thr ph cv vals).length = K := by
+    (h : WF cv K) (vals : List Rat) : (cycleStatV cache mode f thr ph cv vals).length = K := by
   cases cache <;> cases mode <;>
-    simp [cycleStat, lookupStat, lookupAugStat, sliceStat, nLabels_eq h, sliceCache_length h, augSlices_length]
+    simp [cycleStatV, lookupStat, lookupAugStat, sliceStat, nLabels_eq h, sliceCache_length h, augSlices_length]
 
 end Container
